@@ -849,6 +849,91 @@ async fn macro_alias_case(seed: u64) -> Out {
 	out
 }
 
+/// Directed family (default `Server` on loopback): a TCP connection is accepted while every slot is taken, a slot frees,
+/// and only then does that connection do its WebSocket handshake; another connection follows. Every connection is a
+/// connection of its own: an unsubscribe naming the other one's subscription answers false.
+async fn tcp_late_handshake_case(seed: u64) -> Out {
+	let mut out = Out::default();
+	let mut r = Rng::new(seed);
+	let reg = Registry::default();
+	macro_rules! bad {
+		($sig:expr, $($arg:tt)*) => { out.violations.push(($sig.to_string(), format!($($arg)*))) };
+	}
+	let max = 2 + r.below(2) as u32;
+	let cfg = ServerConfig::builder().max_connections(max).build();
+	let Ok(server) = jsonrpsee_server::Server::builder().set_config(cfg).build("127.0.0.1:0").await else { return out };
+	let Ok(addr) = server.local_addr() else { return out };
+	let handle = server.start(subctl::module(reg.clone()));
+	let pause = |ms: u64| tokio::time::sleep(Duration::from_millis(ms));
+	// fill every slot
+	let mut filler = Vec::new();
+	for _ in 0..max {
+		match jrv::tcp::ws_connect(addr).await {
+			Ok(x) => filler.push(x),
+			Err(_) => return out,
+		}
+	}
+	// a connection that is accepted now and shakes hands later
+	let Ok(late_tcp) = jrv::tcp::connect(addr).await else { return out };
+	pause(60).await;
+	// one slot frees
+	if let Some((mut ws, _k)) = filler.pop() {
+		ws.close().await;
+	}
+	pause(60).await;
+	let Ok((mut late, _lk)) = jrv::tcp::ws_over(late_tcp).await else {
+		out.history.push("the late connection was refused: scenario not reached".into());
+		let _ = handle.stop();
+		return out;
+	};
+	// another slot frees for the next connection
+	if let Some((mut ws, _k)) = filler.pop() {
+		ws.close().await;
+	}
+	pause(60).await;
+	let Ok((mut next, _nk)) = jrv::tcp::ws_connect(addr).await else {
+		out.history.push("the next connection was refused: scenario not reached".into());
+		let _ = handle.stop();
+		return out;
+	};
+	// the late connection subscribes; the next one names that subscription
+	let _ = late.send_text(&json!({"jsonrpc": "2.0", "id": 1, "method": "sub", "params": ["late"]}).to_string()).await;
+	pause(40).await;
+	let Some(h) = reg.get("late") else {
+		bad!("refused-with-free-slot/subscribe", "late-handshake scenario: the subscribe call did not reach its handler");
+		let _ = handle.stop();
+		return out;
+	};
+	let id = match h.cmd(Cmd::Accept).await.map(|t| t.reply) {
+		Some(Reply::Accepted { sub_id }) => sub_id,
+		other => {
+			bad!("accept-failed/connection-open", "late-handshake scenario: {other:?}");
+			let _ = handle.stop();
+			return out;
+		}
+	};
+	out.admissions += 1;
+	let _ = next.send_text(&json!({"jsonrpc": "2.0", "id": 2, "method": "unsub", "params": [id]}).to_string()).await;
+	let rp = next.drain_until_idle(Duration::from_millis(300)).await.iter().filter_map(|f| f.json()).find(|v| v["id"] == json!(2));
+	out.ops_checked += 1;
+	match rp {
+		Some(v) if v["result"] == json!(true) => bad!("unsubscribe-result-wrong/foreign-id/tcp-late-handshake", "a connection accepted while the server was full shook hands after a slot had freed; the connection accepted after it unsubscribed its subscription {id}: answered true"),
+		Some(_) => out.unsub_false += 1,
+		None => out.history.push("no answer to the foreign unsubscribe within 300 ms (not judged)".into()),
+	}
+	match h.cmd(Cmd::IsClosed(0)).await.map(|t| t.reply) {
+		Some(Reply::Closed(false)) => {}
+		other => {
+			if out.violations.is_empty() {
+				bad!("is-closed-wrong/reported-closed-while-active/tcp-late-handshake", "after another connection named it in an unsubscribe call the subscription reports {other:?}");
+			}
+		}
+	}
+	let _ = h.cmd_nowait(Cmd::Return(Ret::None));
+	let _ = handle.stop();
+	out
+}
+
 /// Id provider driven by the harness: hands out the queued ids first (so that an id can be issued again on the same
 /// connection, as the library's own `NoopIdProvider` or a short `RandomStringIdProvider` do), then fresh numbers.
 #[derive(Debug, Clone, Default)]
@@ -1725,6 +1810,35 @@ fn main() {
 			}
 			for (sig, d) in o.violations {
 				violations.push(Violation::new(sig, d, json!({"scenario": "a macro-declared subscription used through its aliases", "seed": s, "history": o.history})));
+			}
+		}
+	}
+	if !replay {
+		let n = ctx.tier.pick(16u64, 400);
+		let seed = ctx.seed;
+		let res: Vec<(u64, Out)> = block_on_stress_io(8, async move {
+			let mut all = Vec::new();
+			for chunk in (0..n).collect::<Vec<_>>().chunks(8) {
+				let hs: Vec<_> = chunk.iter().map(|i| { let s = Rng::fork(seed, 66_000_000 + i).next_u64(); tokio::spawn(async move { (s, tcp_late_handshake_case(s).await) }) }).collect();
+				for h in hs {
+					if let Ok(x) = h.await {
+						all.push(x);
+					}
+				}
+			}
+			all
+		});
+		for (s, o) in res {
+			ev.eval();
+			ev.count("cases_tcp_late_handshake", 1);
+			ev.count("operations_checked", o.ops_checked as u64);
+			if o.ops_checked > 0 {
+				ev.nontrivial(&("tcp-late-handshake", s));
+			} else {
+				ev.count("cases_tcp_late_handshake_scenario_not_reached", 1);
+			}
+			for (sig, d) in o.violations {
+				violations.push(Violation::new(sig, d, json!({"scenario": "tcp: handshake long after the accept", "seed": s, "history": o.history})));
 			}
 		}
 	}
